@@ -114,9 +114,35 @@ def jsonKeyKVs : List (String × Val) → String
   | (k, v) :: r => "\"" ++ k ++ "\":" ++ jsonKey v ++ "," ++ jsonKeyKVs r
 end
 
+/- Equality of two array items as gojsonschema sees it for `uniqueItems`: the JSON texts coincide.  `encoding/json`
+   writes the keys of a map in sorted order, so two mappings are the same item exactly when they have the same entries,
+   whatever order the association lists spell them in (until round 6 the model compared `jsonKey` texts, which spell a
+   mapping in list order: right on the key-sorted trees the driver is fed, wrong as a function on association lists —
+   `Neg/C02Whole` had the witness).  Scalars are compared through their text as before. -/
+mutual
+def jsonEq : Val → Val → Bool
+  | .seq xs, .seq ys => jsonEqList xs ys
+  | .map kvs, .map kvs' => kvs.length == kvs'.length && jsonSub kvs kvs'
+  | .seq _, _ => false
+  | .map _, _ => false
+  | _, .seq _ => false
+  | _, .map _ => false
+  | a, b => jsonKey a == jsonKey b
+def jsonEqList : List Val → List Val → Bool
+  | [], [] => true
+  | x :: xs, y :: ys => jsonEq x y && jsonEqList xs ys
+  | _, _ => false
+/-- every entry of the first mapping is an entry of the second -/
+def jsonSub : List (String × Val) → List (String × Val) → Bool
+  | [], _ => true
+  | (k, v) :: r, m => (match Val.lookup k m with
+      | some v' => jsonEq v v'
+      | none => false) && jsonSub r m
+end
+
 def uniqueJson : List Val → Bool
   | [] => true
-  | x :: xs => !(xs.any (fun y => jsonKey y == jsonKey x)) && uniqueJson xs
+  | x :: xs => !(xs.any (fun y => jsonEq y x)) && uniqueJson xs
 
 def propDefined (props : List (String × S)) (k : String) : Bool := props.any (fun p => p.1 = k)
 def patDefined (pats : List (Pat × S)) (k : String) : Bool := pats.any (fun p => p.1.matches k)
